@@ -9,7 +9,7 @@ use std::time::Duration;
 
 pub static PROP: Prop = Prop {
     id: "C05",
-    rule: "cases: (a) exhaustive: every sequence of length <= L over a 22-symbol alphabet of token classes {number, string, strings spelling `,` and `:`, bool, name (a name before `(` is a function name), ( ) [ ] { } , ; ? : prefix-only `!`, infix-only `*`, prefix+infix `-`, postfix `++`, `not`, word infix `in`}, rendered with single blanks (L = 5 quick, 6 thorough); (b) corruptions: a valid program from the flat generator with 1-3 edits at token level (delete / insert / replace / swap a token, truncate) or at character level (delete a character, insert a structural character, unbalance a quote, splice `e` `.` into a number); (c) number-shaped text (1-34 digits, optional fraction, then junk from the number alphabet: e9, E5, e+3, .5, .., .1.2 ...) embedded in a program; (d) in fresh child processes: word operators registered at run time (over, pct, xor ...), the same short token sequences around them parsed before and after the registration, each judged against the operator table in force. Oracle (one-directional): if a lenient, nondeterministic recogniser of the documented grammar (optional `;` after any statement, optional trailing comma in list and map, any number of postfix operators, `not` as prefix or as negation marker) finds NO reading, parse_expression must return Err; a lexical error (unterminated string, malformed number) counts as no reading. Nothing is asserted when the recogniser accepts. Non-trivial: the recogniser rejects the input and it is a near-miss (some single-token deletion is accepted, or it came from a valid program by <= 3 edits); distinct by token-class sequence.",
+    rule: "cases: (a) exhaustive: every sequence of length <= L over a 22-symbol alphabet of token classes {number, string, strings spelling `,` and `:`, bool, name (a name before `(` is a function name), ( ) [ ] { } , ; ? : prefix-only `!`, infix-only `*`, prefix+infix `-`, postfix `++`, `not`, word infix `in`}, rendered with single blanks (L = 5 quick, 6 thorough); (b) corruptions: a valid program from the flat generator with 1-3 edits at token level (delete / insert / replace / swap a token, truncate) or at character level (delete a character, insert a structural character, unbalance a quote, splice `e` `.` into a number); (c) number-shaped text (1-34 digits, optional fraction, then junk from the number alphabet: e9, E5, e+3, .5, .., .1.2 ...) embedded in a program; a non-blank `whitespace` character (form feed, vertical tab, NBSP, U+2003, NEL, BOM) between a function name and `(` plus one more structural edit; (d) in fresh child processes: word operators registered at run time (over, pct, xor ...), the same short token sequences around them parsed before and after the registration, each judged against the operator table in force. Oracle (one-directional): if a lenient, nondeterministic recogniser of the documented grammar (optional `;` after any statement, optional trailing comma in list and map, any number of postfix operators, `not` as prefix or as negation marker) finds NO reading, parse_expression must return Err; a lexical error (unterminated string, malformed number) counts as no reading. Nothing is asserted when the recogniser accepts. Non-trivial: the recogniser rejects the input and it is a near-miss (some single-token deletion is accepted, or it came from a valid program by <= 3 edits); distinct by token-class sequence.",
     assumptions: &[
         "the recogniser reads the grammar as leniently as the statement allows, so a rejection means no reading exists; a trailing comma in a call is NOT among the stated leniencies and is treated as malformed",
         "inputs with more than 62 tokens are outside the recogniser's range and assert nothing",
@@ -181,7 +181,7 @@ fn fixed(env: &Env, st: &mut Stats) -> CaseResult {
     Ok(())
 }
 
-const STRUCT_CHARS: [&str; 16] = ["(", ")", "[", "]", "{", "}", ",", ";", "?", ":", "'", "\"", "e", ".", "+", "*"];
+const STRUCT_CHARS: [&str; 19] = ["(", ")", "[", "]", "{", "}", ",", ";", "?", ":", "'", "\"", "e", ".", "+", "*", "\u{c}", "\u{a0}", "\u{b}"];
 
 /// number-like text: digits, at most a few dots, then junk from the number alphabet
 fn gen_number_like(src: &mut Src) -> String {
@@ -312,7 +312,7 @@ fn history_case(src: &mut Src, st: &mut Stats, env: &Env) -> CaseResult {
 }
 
 fn case(src: &mut Src, st: &mut Stats, env: &Env) -> CaseResult {
-    match src.weighted(&[40, 6, 1]) {
+    match src.weighted(&[40, 6, 1, 3]) {
         1 => {
             st.eval();
             let tab = OpTable::builtin();
@@ -329,6 +329,42 @@ fn case(src: &mut Src, st: &mut Stats, env: &Env) -> CaseResult {
             return judge(&text, if e.is_some() { None } else { Some(&toks) }, &tab, true, st);
         }
         2 => return history_case(src, st, env),
+        3 => {
+            // a call whose name is separated from `(` by a character that is NOT one of the four
+            // blanks (form feed, vertical tab, NBSP ...), then one more structural edit
+            st.eval();
+            let tab = OpTable::builtin();
+            let odd = *src.choose(&["\u{c}", "\u{b}", "\u{a0}", "\u{2003}", "\u{85}", "\u{feff}"]);
+            let f = *src.choose(&["max", "f", "min", "g"]);
+            let args = *src.choose(&["7", "1 , 2", "", "a + 1", "[1]"]);
+            let mut text = match src.pick(4) {
+                0 => format!("{}{}({})", f, odd, args),
+                1 => format!("{} {} ({})", f, odd, args),
+                2 => format!("[{}{}({}) , 2]", f, odd, args),
+                _ => format!("x = {}{}({}) ; x", f, odd, args),
+            };
+            let mut chars: Vec<char> = text.chars().collect();
+            let pos = src.pick(chars.len() + 1);
+            match src.pick(4) {
+                0 => chars.insert(pos, *src.choose(&[')', ']', '}', ',', '('])),
+                1 => {
+                    if let Some(p) = chars.iter().position(|c| *c == ')') {
+                        chars.insert(p, ')');
+                    }
+                }
+                2 => {
+                    if !chars.is_empty() {
+                        chars.remove(pos.min(chars.len() - 1));
+                    }
+                }
+                _ => {}
+            }
+            text = chars.into_iter().collect();
+            st.hist("corruption:odd-whitespace-before-paren");
+            st.sample(|| json!({"text": text}));
+            let (toks, e) = lex(&text, &tab);
+            return judge(&text, if e.is_some() { None } else { Some(&toks) }, &tab, true, st);
+        }
         _ => {}
     }
     st.eval();
